@@ -15,7 +15,7 @@ MODULE = "NadaVerif.Props.C13"
 TRANSLATORS = None
 THEOREMS = [f"NadaVerif.C13.{n}" for n in (
     "cli_one_line", "cli_path_success", "cli_path_failure", "cli_string_entry", "entry_points_agree",
-    "compile_deterministic", "trace_deterministic")]
+    "compile_deterministic", "runCmds_append")]
 
 PY = "/venv/bin/python"
 
